@@ -22,6 +22,7 @@ import PubgrubProofs.NonEmpty
 import PubgrubProofs.CanonInstances
 import PubgrubProofs.RangeAnyOrder
 import PubgrubProofs.RangeAnyOrder2
+import PubgrubProofs.Examples
 
 namespace Pubgrub.C12
 open Pubgrub Pubgrub.Solver VersionSet
@@ -123,5 +124,8 @@ theorem C12_range_choose_set_is_prioritized_set (W : World P (Range V) V M) (hW 
   by apply range_C12_choose_set_is_prioritized_set (P := P) (V := V) (M := M) (Pr := Pr) (E := E) <;> assumption
 
 end AnyOrder2
+
+/-! Non-vacuity on concrete runs (PubgrubProofs/Examples.lean, evaluated by `decide +kernel`; registered in
+obligations.json so that their axioms are audited too): `Examples.example_C_reachable`, `Examples.example_C_choose_nonempty`. -/
 
 end Pubgrub.C12
